@@ -302,6 +302,58 @@ def extract_wire():
 
 HOOKS.append(extract_wire)
 
+def extract_drivers():
+    import glob
+    base = "glonax-runtime/src/"
+    names = set()
+    files = sorted(glob.glob(os.path.join(REPO, base, "driver/net/*.rs"))) + [os.path.join(REPO, base, "service/authority.rs")]
+    for f in files:
+        rel = os.path.relpath(f, REPO)
+        for m in re.finditer(r"PGN::([A-Z][A-Za-z0-9]*)\b(?!\()", src(rel)):
+            if m.group(1) not in ("ProprietaryB", "Other"):
+                names.add(m.group(1))
+    for n in sorted(names):
+        add("pgn" + n, pgn_number(n), "j1939::PGN::" + n + " (number from the j1939 crate table)")
+    add("vcuStatusPgn", const(base + "driver/net/vcu.rs", "STATUS_PGN"), "vcu.rs STATUS_PGN")
+    m = one(base + "driver/net/encoder.rs", r"const\s+ENCODER_PGN\s*:\s*PGN\s*=\s*PGN::ProprietaryB\(([0-9_]+)\)", "ENCODER_PGN")
+    add("encoderPgn", num(m.group(1)), "encoder.rs ENCODER_PGN")
+    m = one(base + "driver/net/inclino.rs", r"const\s+INCLINOMETER_PGN\s*:\s*PGN\s*=\s*PGN::ProprietaryB\(([0-9_]+)\)", "INCLINOMETER_PGN")
+    add("inclinometerPgn", num(m.group(1)), "inclino.rs INCLINOMETER_PGN")
+    # encoder state words
+    b = body_of(base + "driver/net/encoder.rs", r"message\.state\s*=\s*match\s+state", "encoder state match")
+    for m in re.finditer(r"(0x[0-9a-fA-F]+)\s*=>\s*EncoderState::(\w+)", b):
+        add("encoderState" + m.group(2), num(m.group(1)), "encoder.rs ProcessDataMessage::from_frame state word")
+    # encoder addresses of KueblerEncoder::new
+    b = body_of(base + "driver/net/encoder.rs", r"impl\s+KueblerEncoder\s*\{", "impl KueblerEncoder")
+    addrs = [num(x) for x in re.findall(r"da\s*==\s*(0x[0-9a-fA-F]+)", b)]
+    if len(addrs) != 4:
+        raise ExtractError("encoder.rs: expected four encoder addresses in KueblerEncoder::new, found %r" % addrs)
+    add("encoderAddrs", "[%s]" % ", ".join(map(str, addrs)), "KueblerEncoder::new known unit addresses (z-axis, y-axis+60deg, y, y)", ty="List Nat")
+    m = re.search(r"([0-9_]+)_f32\.to_radians\(\)", b)
+    if not m:
+        raise ExtractError("encoder.rs: boom offset degrees")
+    add("encoderBoomOffsetDeg", num(m.group(1)), "KueblerEncoder::new offset of the second address, degrees")
+    # inclinometer status nibble
+    b = body_of(base + "driver/net/inclino.rs", r"message\.status\s*=\s*match\s+frame\.pdu\(\)\[6\]\s*>>\s*4", "inclinometer status match")
+    for m in re.finditer(r"(0x[0-9a-fA-F]+)\s*=>\s*InclinometerStatus::(\w+)", b):
+        add("inclinoStatus" + m.group(2), num(m.group(1)), "inclino.rs status nibble")
+    # director thresholds and authority decimation
+    d = base + "service/director.rs"
+    b = body_of(d, r"fn\s+elect_engine_state", "elect_engine_state")
+    m1 = re.search(r"rpm\s*<\s*([0-9_]+)", b)
+    m2 = re.search(r"rpm\s*>\s*([0-9_]+)", b)
+    if not (m1 and m2):
+        raise ExtractError("director.rs: engine thresholds")
+    add("directorRpmInhibit", num(m1.group(1)), "director.rs elect_engine_state: rpm < N => Inhibited")
+    add("directorRpmEmergency", num(m2.group(1)), "director.rs elect_engine_state: rpm > N => Emergency")
+    a = base + "service/authority.rs"
+    m = one(a, r"interval_decimation\(Duration::from_millis\(([0-9_]+)\),\s*self\.tick,\s*([0-9_]+)\)", "interval_decimation call")
+    add("statusIntervalMs", num(m.group(1)), "authority.rs on_tick interval_decimation interval")
+    add("statusDecimationMs", num(m.group(2)), "authority.rs on_tick interval_decimation decimation")
+
+
+HOOKS.append(extract_drivers)
+
 
 def main():
     try:
